@@ -13,7 +13,7 @@ def demo_info(d):
     txt=open(os.path.join(d,"demo_path.txt")).read()
     m=re.search(r"([\w.-]+/[\w./-]*_test\.go|[\w.-]+/[\w./-]*main\.go)", txt)
     path=m.group(1) if m else None
-    m=re.search(r"(go test[^\n]*|go run[^\n]*)", txt)
+    m=re.search(r"((?:[A-Z][A-Z0-9_]*=\S+[ \t]+)*go test[^\n]*|(?:[A-Z][A-Z0-9_]*=\S+[ \t]+)*go run[^\n]*)", txt)
     cmd=m.group(1).strip() if m else None
     return path, cmd
 def confirm(d):
